@@ -336,10 +336,10 @@ func (mw *msgWriter) addFiles(files []*File, isAttachment bool) {
 				mw.encoder.Encode(mw.charset.String(), sanitizeFilename(file.Name))))
 		}
 
+		if file.Enc != "" {
+			encoding = file.Enc
+		}
 		if _, ok := file.getHeader(HeaderContentTransferEnc); !ok {
-			if file.Enc != "" {
-				encoding = file.Enc
-			}
 			file.setHeader(HeaderContentTransferEnc, string(encoding))
 		}
 
